@@ -143,6 +143,21 @@ func genC16(t *rapid.T) c16Case {
 		}
 		c.Steps = append(c.Steps, st)
 	}
+	// One coalescing case in three spells out a flush train: the same member
+	// changes 3-6 times with a pause longer than the coalescing period after
+	// each change (so every change is flushed on its own), into an application
+	// channel of 1-2 slots that nobody reads until the end - every flush after
+	// the first finds the consumer's channel full.
+	if c.Coalesce > 0 && rapid.IntRange(0, 2).Draw(t, "flush-train") == 0 {
+		c.SmallCh, c.Eager, c.UserCoal = rapid.SampledFrom([]int{1, 1, 2}).Draw(t, "train.ch"), false, false
+		m := rapid.IntRange(0, c.Members-1).Draw(t, "train.m")
+		at := rapid.IntRange(0, len(c.Steps)).Draw(t, "train.at")
+		var train []c16Step
+		for i, k := 0, rapid.IntRange(3, 6).Draw(t, "train.n"); i < k; i++ {
+			train = append(train, c16Step{Kind: i % 2, M: m, Same: i > 0}, c16Step{Kind: 7, Ms: 2*c.Coalesce + 3})
+		}
+		c.Steps = append(append(append([]c16Step{}, c.Steps[:at]...), train...), c.Steps[at:]...)
+	}
 	// One case in eight lets the pipeline overflow: snapshot stage on, a small
 	// application channel, a reader that does not read, and (step 10) more tag
 	// updates of one member than the stages between the snapshot stage and the
